@@ -805,5 +805,114 @@ pub open spec fn sum_spec(w: Seq<Option<real>>, mp: int, o: U) -> bool {
     }
 //@end
 
+
+// ---- rolling z-score (tea-rolling norm.rs, C03): (x - mean) / sample standard deviation over the non-null window; null when
+// the current element is null, below min_periods, or when the spread is (numerically) zero
+pub open spec fn zscore_spec(w: Seq<Option<real>>, mp: int, o: U) -> bool {
+    let n = cnt(w);
+    &&& (w.len() == 0 || w.last().is_none() || n < mp) ==> isnull(o)
+    &&& (w.len() > 0 && w.last().is_some() && n >= mp) ==> (if biased_var(w) > rv(EPS) {
+            !isnull(o) && n >= 2 && oval(o) == (w.last().unwrap() - ps(w, 1) / (n as real)) / rsqrt(ssd(w) / ((n - 1) as real))
+        } else { isnull(o) })
+}
+pub proof fn lemma_cnt0_ps0(w: Seq<Option<real>>, k: int)
+    requires cnt(w) == 0,
+    ensures ps(w, k) == 0real,
+    decreases w.len()
+{
+    if w.len() > 0 { lemma_cnt_le_len(w.drop_last()); lemma_cnt0_ps0(w.drop_last(), k); }
+}
+// a window with a single valid observation has no spread: S2 == S1^2
+pub proof fn lemma_single_no_spread(w: Seq<Option<real>>)
+    requires cnt(w) == 1,
+    ensures ps(w, 2) == ps(w, 1) * ps(w, 1), biased_var(w) == 0real,
+    decreases w.len()
+{
+    if w.len() > 0 {
+        lemma_cnt_le_len(w.drop_last());
+        if w.last().is_some() {
+            lemma_cnt0_ps0(w.drop_last(), 1); lemma_cnt0_ps0(w.drop_last(), 2);
+        } else {
+            lemma_single_no_spread(w.drop_last());
+        }
+        let (s1, s2) = (ps(w, 1), ps(w, 2));
+        assert(s2 == s1 * s1);
+        assert(s2 / 1real - (s1 / 1real) * (s1 / 1real) == 0real) by(nonlinear_arith) requires s2 == s1 * s1;
+    }
+}
+
+//@fn name=ts_vzscore_to crate=tea-rolling ctx="pub trait RollingValidNorm" props=C03,C05,C06,C07,C08 arith=C05
+//@types T::Inner=${TI}
+//@sig fn ts_vzscore_to<V: RollingDrivers<T>, O: Vec1<U>>(this: &V, window: usize, min_periods: Option<usize>, out: Option<&mut O::Buf>) -> (r: Option<O>)
+//@spec
+    requires
+        canon_seq(this.view()),
+        out matches Some(o) ==> buf_fresh(o, this.view().len()),
+        (window == 0 && out.is_none() && this.view().len() > 0) ==> panic_allowed(),
+        this.view().len() <= 0x7fff_ffff,      // A-LEN
+    ensures
+        window >= 1 ==> delivered_each(r, match out { Some(o) => Some(final(o).written()), None => None }, this.view().len(),       // #C05,C07 one_output_per_input
+            |i: int, o: U| zscore_spec(vals(wnd(this.view(), window, i)), mp_eff(min_periods, window, 0), o)),                           // #C03,C05,C06,C08 value_and_mask
+//@closure 1 name=CloVzscore trait="RollingFn<T, U>" params="v_rm: Option<T>, v: T" ret="(res: U)" push="Call { rm: v_rm, v: v, out: __r }" caps="mut n: usize, mut sum: f64, mut sum2: f64, min_periods: usize"
+//@closure 1 extra
+    open spec fn hist(&self) -> Seq<Call<T, U>> { self.h@ }
+    open spec fn elem_ok(v: T) -> bool { canon(v) }
+    open spec fn cap_len() -> nat { 0x7fff_ffff }
+//@closure 1 inv
+        &&& hist_wf(self.h@) && canon_seq(adds(self.h@))
+        &&& sums_ok(vals(win(self.h@)), self.n, self.sum, self.sum2, self.sum, self.sum, 2)         // #C03 state_describes_window
+        &&& outs_ok(self.h@, |w: Seq<T>, o: U| zscore_spec(vals(w), self.min_periods as int, o))
+//@at closure 1 first
+        let ghost w0 = vals(win(self.h@));
+        let ghost wp = w0.push(val(v));
+        proof {
+            broadcast use a_real, a_real_cmp;
+            ax_lits();
+            reveal_with_fuel(rpow, 4);
+            lemma_step_vals(self.h@, v_rm, v);
+            lemma_small_products(self.n as int); lemma_small_products(self.n as int + 1);
+            lemma_cnt_le_len(wp);
+            if cnt(wp) == 1 { lemma_single_no_spread(wp); }
+            if cnt(wp) >= 2 {
+                lemma_var_forms(ps(wp, 1), ps(wp, 2), cnt(wp) as real);
+                if biased_var(wp) > 0real {
+                    lemma_scaled_pos(biased_var(wp), cnt(wp) as real);
+                    ax_rsqrt(ssd(wp) / ((cnt(wp) - 1) as real));
+                    let s = rsqrt(ssd(wp) / ((cnt(wp) - 1) as real));
+                    assert(s != 0real) by(nonlinear_arith) requires s * s == ssd(wp) / ((cnt(wp) - 1) as real), ssd(wp) / ((cnt(wp) - 1) as real) > 0real;
+                }
+            }
+        }
+//@at closure 1 last
+        proof {
+            let c = Call { rm: v_rm, v: v, out: __r };
+            lemma_fifo_step(self.h@, c);
+            if v_rm.is_some() { assert(v_rm.unwrap() == adds(self.h@).push(v)[nrm(self.h@) as int]); }
+            assert(adds(self.h@.push(c)) =~= adds(self.h@).push(v));
+            assert(vals(win(self.h@).push(v)) =~= wp);
+            assert(wp.last() == val(v));
+            assert(zscore_spec(vals(win(self.h@).push(v)), self.min_periods as int, __r));       // #C03,C05 output_is_window_statistic
+            lemma_outs_step(self.h@, c, |w: Seq<T>, o: U| zscore_spec(vals(w), self.min_periods as int, o));
+            assert(sums_ok(vals(win(self.h@.push(c))), n, sum, sum2, sum, sum, 2));              // #C03 state_describes_window
+        }
+//@at body first
+    let ghost mp0 = min_periods;
+    let ghost out0 = out;
+    proof { ax_lits(); }
+//@at body last
+    proof {
+        let h = __clo1.h@;
+        let s = outs(h);
+        if window >= 1 {
+            let p = |i: int, o: U| zscore_spec(vals(wnd(this.view(), window, i)), mp_eff(mp0, window, 0), o);
+            assert forall|i: int| 0 <= i < s.len() implies p(i, #[trigger] s[i]) by {
+                lemma_fifo_window_is_wnd(h, this.view(), window, i);
+                assert(zscore_spec(vals(fifo_window(h, i)), __clo1.min_periods as int, h[i].out));
+            }
+            lemma_delivered_each(__ret, match out0 { Some(o) => Some(final(o).written()), None => None }, s, p);
+        }
+    }
+//@end
+
 } // verus!
 fn main() {}
